@@ -48,6 +48,23 @@ Definition step_op (op : list tok) : list tok :=
       match args with
       | _ :: sizes => let len := sum_toks (map (fun t => match t with TN z => TN (z / 65536) | _ => t end) sizes) in res_toks len (tcp_writev len [KWrote (Nat.div len 2)])
       | _ => [TS "badop"] end
+    else if name =? "blackbox" then
+      (* end-to-end run through a real worker (harness/src/bin/c01bb.rs): nothing of the model is
+         involved; the observation is the SPECIFICATION — every one of the n exchanges delivers
+         its request body (req_size + i*step bytes, none for "none") and its response body
+         (resp_size + i*step bytes) exactly, with a clean end; when a sender aborts (abort <> 0)
+         the counts are any prefix and only "ok n" is specified.
+         blackbox <front> <back> <bufsz> <n> <req framing> <req size> <resp framing> <resp size> <step> ... <abort> <seed> *)
+      match args with
+      | _ :: _ :: _ :: TN n0 :: reqfr :: TN rq :: _ :: TN rs :: TN stp :: rest =>
+        let n := Z.max n0 1 in
+        let abort := match nth_error rest 8 with Some (TN a) => a | _ => 0%Z end in
+        let tri := (stp * (n * (n - 1) / 2))%Z in
+        let no_req := match reqfr with TS f => f =? "none" | _ => false end in
+        if (abort =? 0)%Z then
+          [TS "ok"; TN n; TN (if no_req then 0 else n * rq + tri)%Z; TN (n * rs + tri)%Z]
+        else [TS "ok"; TN n]
+      | _ => [TS "badop"] end
     else if name =? "h1rt" then
       (* kawa's H1 parser and serialiser are oracles of the framing theorems: the prediction is the
          theorem's conclusion — the body bytes that were fed come out, and the message is complete
@@ -72,7 +89,7 @@ Definition step_op (op : list tok) : list tok :=
         let total := Nat.div (sum_toks sizes) 256 in
         let l := Nat.div (Z.to_nat lim) 256 in
         let t := mkTls 0 (if Nat.eqb l 0 then None else Some l) 0 in
-        let '(b, st, _, _) := tls_writev 50 total t (repeat (KWrote 100000) 40) in
+        let '(b, st, _, _) := tls_writev 50 total t (repeat (KWrote (Nat.mul 1000 100)) 40) in
         [TS (if Nat.eqb b total then "all" else "partial"); TS (sres_name st); TS "all"]
       | _ => [TS "badop"] end
     else if name =? "h2conv" then
